@@ -161,6 +161,29 @@ def r3(ctx):
         if any("len(covered_blocks)" in t for t, p in ga):
             removed_before = any(u(c.func).startswith("%s.remove" % und) and cfg.dominates(cfg.node_containing(c), cn) for c in ctx.prog.calls_in(h.node))
             ctx.ob(h.qual, "non-bridging-read-stays-undecided", not removed_before, h.loc(cfg.ast(cn)), "a read that bridges nothing is left undecided for the next slice" if not removed_before else "a non-bridging read is dropped")
+    # the helper consumes its `undecided_reads` argument in place (-=, remove): a set handed to it must not be
+    # needed afterwards by the caller, or a copy has to be passed
+    rsf = ctx.func(RS + ".readselection")
+    rcfg = ctx.cfg(rsf)
+    hparams = util.params_of(h.node)
+    uidx = hparams.index(und)
+    for c in ctx.prog.calls_in(rsf.node):
+        if u(c.func) != "readselection_helper" or len(c.args) <= uidx:
+            continue
+        a = c.args[uidx]
+        node = rcfg.node_containing(c)
+        later = None
+        if isinstance(a, ast.Name):
+            for m in rcfg.reachable(node) - {node}:
+                am = rcfg.ast(m)
+                if am is None:
+                    continue
+                uses = [x for x in ast.walk(am) if isinstance(x, ast.Name) and x.id == a.id and isinstance(x.ctx, ast.Load)]
+                # a further call that again passes it as the consumable argument is the same role
+                if uses and not all(any(x is cc.args[uidx] for cc in ctx.prog.calls_in(rsf.node) if u(cc.func) == "readselection_helper" and len(cc.args) > uidx) for x in uses):
+                    later = m
+        ok = later is None
+        ctx.ob(rsf.qual, "consumed-set-not-reused:%s" % u(a)[:40], ok, rsf.loc(c), "the set handed to the helper as `undecided_reads` (%s) is not read by the caller afterwards" % u(a) if ok else "`%s` is emptied in place by readselection_helper and then used again (%s): the reads it held are not taken out of the next round, get counted in the coverage monitor twice and crowd out admissible reads" % (u(a), rcfg.describe(later)))
     # slice: a read that is neither rejected nor selected stays in the caller's undecided set (not in either result set)
     res_adds = [c for c in ctx.prog.calls_in(sl.node) if u(c.func) in ("reads_in_slice.add", "reads_violating_coverage.add")]
     ctx.ob(sl.qual, "two-result-sets", len(res_adds) == 2 and all(u(c.args[0]) == "max_item" for c in res_adds), sl.loc(), "the popped read goes to exactly one of reads_in_slice / reads_violating_coverage or stays undecided" if len(res_adds) == 2 else "result set bookkeeping of _slice_read_selection changed")
@@ -250,4 +273,4 @@ RULES = [
     ("C07.R4", "selected indices come from the input's index range", r4),
     ("C07.R5", "family budget: per-sample cap and the 23 limit", r5),
 ]
-FLOORS = {"C07.R1": 8, "C07.R2": 7, "C07.R3": 7, "C07.R4": 7, "C07.R5": 6}
+FLOORS = {"C07.R1": 8, "C07.R2": 7, "C07.R3": 9, "C07.R4": 7, "C07.R5": 6}
